@@ -6,13 +6,13 @@ import "crypto/sha256"
 func VerifC01_type3_honest() {
 	vUnwind(40)
 	vUseModels("ecapi")
-	origin := vBytesC("origin", 0, vBound("C01_origin", 3, 40))
+	origin := vBytesC("origin", 0, vBound("C01_origin", 33, 66))
 	vAssume(len(origin) == 0 || origin[len(origin)-1] != 0)
 	issuer := t3Issuer(string(origin))
 	secret := vBytes("client_secret", 48, 48)
 	vAssume(secret[0] != 0)
 	client := NewRateLimitedClientFromSecret(secret)
-	challenge := vBytesC("challenge", 0, vBound("C01_challenge3", 2, 70))
+	challenge := vBytesC("challenge", 0, vBound("C01_challenge3", 1, 70))
 	nonce := vBytes("nonce", 32, 32)
 	blind := vBytes("blind", 48, 48)
 	vAssume(blind[0] != 0)
